@@ -6,7 +6,7 @@ S_NOTE = ("Trusted: std::sync::mpsc, the threadpool crate, the OS file system. T
           "4-file graphs: one labelled representative per isomorphism class.")
 CHECKS = {
  "C02": dict(engine="S", technique="stateless model checking of the real coordinator: exhaustive DFS over all task completion orders under a controlled scheduler",
-   text="Every acyclic dependency graph on <=3 files (all labelled in thorough) and all isomorphism classes on 4 files (thorough; six named ones in quick), every input selection, stale/absent pre-state, Build/InMemoryBuild/Verify: ALL orders in which gated worker tasks can complete are executed on the real Txtpp::run; outputs must equal the closed-form serial oracle, the hook trace must show each dependency's final pass ending before the depender's final pass begins, and the outcome set per project must be a singleton.",
+   text="Every acyclic dependency graph on <=3 files (all labelled in thorough) and all isomorphism classes on 4 files (thorough; six named ones in quick), every input selection, stale/absent pre-state, Build/InMemoryBuild/Verify, five source styles (include; after+run cat; mixed; last dependency on the last line; every dependency twice): ALL orders in which gated worker tasks can complete are executed on the real Txtpp::run; outputs must equal the closed-form serial oracle, the hook trace must show each dependency's final pass ending before the depender's final pass begins, and the outcome set per project must be a singleton.",
    ref="4.5, 5/C02", note=S_NOTE),
  "C03": dict(engine="S", technique="stateless model checking of the real coordinator: exhaustive DFS over all task completion orders under a controlled scheduler",
    text="All digraphs with self-loops (same sizes as C02) with an execution-marker command per file, input selections including duplicates and aliases (same file twice, source and output name, ./ and ../ spellings, absolute path, symlink to the source, directory named twice, directory symlink): every completion order terminates (controller detects the coordinator polling forever, unbounded task creation, panics), on success each required file has exactly one completed final pass, no pass runs twice, each marker has exactly one line.",
@@ -21,7 +21,7 @@ E_NOTE = ("Trusted: the reference model M (harness/src/model.rs, written from th
 E_TECH = "bounded-exhaustive enumeration of all inputs over a decision-point alphabet up to a length, every case executed on the real preprocess and compared with a reference state machine (model + conformance of all traces)"
 CHECKS.update({
  "C01": dict(engine="E-lines", technique=E_TECH,
-   text="All sources of <=3 (quick) / <=5 (thorough) lines over a 20-symbol line alphabet chosen from the branches of the directive state machine (plus 4 run symbols to length 3/4), x LF/CRLF x final newline x trailing-newline option, each built by the real preprocess (first pass, final pass and in-memory mode for short ones) and compared byte for byte (output, temp target, verdict) with the parse-then-render reference interpreter on the documented domain (DESIGN 4.3).",
+   text="All sources of <=3 (quick) / <=5 (thorough) lines over a 20-symbol line alphabet chosen from the branches of the directive state machine (plus 4 run symbols to length 3/4, plus a 20-symbol extension alphabet - tab indentation, blank/non-ASCII prefixes, after, CRLF and mixed includes, sub-directory temp targets - to length 3/4), and all include projects on <=2/3 files across three directory levels x 6 body styles x the three source-name shapes, x LF/CRLF x final newline x trailing-newline option, each built by the real preprocess (first pass, final pass and in-memory mode for short ones) and compared byte for byte (output, temp target, verdict) with the parse-then-render reference interpreter on the documented domain (DESIGN 4.3).",
    ref="4.2, 4.3, 4.7, 5/C01", note=E_NOTE),
  "C12": dict(engine="E-lines", technique=E_TECH,
    text="All sources of <=4/5 lines over 9 line shapes with every source line carrying its own terminator (LF/CRLF/none), included file in 4 line-ending variants and command output in 2: byte scan of output and temp target for any terminator other than the first line's.",
@@ -44,23 +44,23 @@ H_NOTE = ("Trusted: the OS file system (tmpfs); runs use the controller's canoni
 H_TECH = "explicit-state breadth-first search over operation histories (txtpp runs x edits x tamperings) with state de-duplication on tree content; invariants evaluated on every transition of the real implementation"
 CHECKS.update({
  "C06": dict(engine="H", technique=H_TECH, ref="4.6, 5/C06", note=H_NOTE,
-   text="BFS to depth 2 (quick) / 3-4 (thorough) over histories of {build, needed, verify, clean} x input selections x trailing-newline flag, source edits and 11 kinds of tampering of each generated file, from the pristine and the freshly built tree: on every verify transition, success iff every output of the processed sources and their dependencies equals what a pristine build writes now; outputs keep bytes, inode and mtime."),
+   text="BFS to depth 2-3 (quick) / 3-4 (thorough) on seven projects (incl. an empty output, an output of exactly one 8 KiB buffer, a 17 KB output), an exhaustive single-byte sweep (every offset x all 255 other values, deletion, insertion) of every output, per-source mini-histories over all sources of <=3/4 lines, and the production binary on every RUN transition of one project; over histories of {build, needed, verify, clean} x input selections x trailing-newline flag, source edits and 11 kinds of tampering of each generated file, from the pristine and the freshly built tree: on every verify transition, success iff every output of the processed sources and their dependencies equals what a pristine build writes now; outputs keep bytes, inode and mtime."),
  "C07": dict(engine="H", technique=H_TECH, ref="4.6, 5/C07", note=H_NOTE + " Known finding F4 (clean does not follow dependencies) is listed in known_findings.json.",
-   text="Same search: every clean transition succeeds (also with erroneous sources), runs no command (marker files), creates nothing, deletes no .txtpp file and touches only outputs/temp targets of the named sources; from a freshly built state, clean of the same inputs restores the pre-build tree exactly."),
+   text="Same search plus all sources of <=3/5 lines over a 13-line alphabet rich in directive look-alikes inside multi-line directives (clean without build changes nothing; build then clean restores the tree): every clean transition succeeds (also with erroneous sources), runs no command (marker files), creates nothing, deletes no .txtpp file and touches only outputs/temp targets of the named sources; from a freshly built state, clean of the same inputs restores the pre-build tree exactly."),
  "C08": dict(engine="H + K", technique=H_TECH + "; crash points enumerated with strace fault injection", ref="4.6, 5/C08", note=H_NOTE,
-   text="Same search plus every byte-prefix of every generated file of project solo: every build transition gives the verdict and the bytes of a build from a pristine tree with the same sources, whatever was at the generated paths (stale, truncated, non-UTF-8, absent)."),
+   text="Same search plus every byte-prefix of every generated file of project solo, every crash point (strace SIGKILL injection at the k-th file-system call) of build and --needed on four projects incl. one with a multi-buffer output, and all sources of <=3/4 lines with stale / non-UTF-8 / empty leftovers: every build transition gives the verdict and the bytes of a build from a pristine tree with the same sources, whatever was at the generated paths (stale, truncated, non-UTF-8, absent)."),
  "C09": dict(engine="H", technique=H_TECH, ref="4.6, 5/C09", note=H_NOTE,
    text="Same search: every --needed transition is paired with a normal build and a verify from a copy of the same state: same verdict and bytes; outputs whose content was already correct keep inode and sentinel mtime; temp targets already correct are not rewritten by build, needed or verify; stale ones are brought up to date."),
  "C10": dict(engine="H", technique=H_TECH, ref="4.6, 5/C10", note=H_NOTE,
-   text="Every transition of the search, all four modes, successful and failing runs: the set of paths whose existence, bytes, inode or mtime changed is a subset of the outputs and temp targets of the processed sources (decoys at near-miss names in every directory); verify leaves outputs untouched; clean creates nothing."),
+   text="Every transition of the search and every mode on all sources of <=3/5 lines over the look-alike alphabet, successful and failing runs: the set of paths whose existence, bytes, inode or mtime changed is a subset of the outputs and temp targets of the processed sources (decoys at near-miss names in every directory); verify leaves outputs untouched; clean creates nothing."),
  "C17": dict(engine="E-conf", technique="exhaustive enumeration of a finite configuration space, each configuration executed on the real library (in a child process with the required cwd) or the production binary",
    ref="4.7, 5/C17", note="Trusted: sh, bash, pwd -P. TXTPP_FILE 'designates' the source if it resolves to it as absolute path, relative to the base directory, or relative to the command's directory (Q5).",
-   text="depth 0..3 x {library with 4 base-dir/cwd relations, CLI} x {default shell, bash -c, an argv-echo script} x {3 command shapes, 3 exit codes} (360 configurations) plus the TXTPP_FILE guard of the binary in 4 modes and a source that calls txtpp: working directory, TXTPP_FILE, the single joined argument seen by the shell, stdout splicing and exit-status handling."),
+   text="depth 0..3 x {library with 4 base-dir/cwd relations, CLI} x {default shell, bash -c, an argv-echo script} x {3 command shapes, exit codes 0/1/7, death by SIGKILL} (420 configurations) plus the TXTPP_FILE guard of the binary in 4 modes and a source that calls txtpp: working directory, TXTPP_FILE, the single joined argument seen by the shell, stdout splicing and exit-status handling."),
 })
 CHECKS.update({
  "C04": dict(engine="S + X", technique="fault enumeration crossed with stateless model checking: every (fault kind, position, mode, input selection) explored under ALL task completion orders of the real coordinator; write limits enumerated at every byte count on the production binary",
    ref="4.5, 5/C04", note=S_NOTE + " Faults are real OS-level faults (directory in the way, /dev/full, RLIMIT_FSIZE, missing directories, invalid UTF-8); permission faults cannot be produced as root.",
-   text="Project a->b->c plus unrelated d: 13 fault kinds x 4 positions of the faulty file x {build, needed, verify} x input selections, each explored under all completion orders: the run must return Err in every schedule (never Ok, hang or panic); the fault-free baseline must return Ok with correct outputs in every schedule. RLIMIT_FSIZE = n for every n from 0 to the largest generated file + 1 on the production binary: exit 0 iff nothing hit the limit, and then all outputs are complete."),
+   text="Project a->b->c plus unrelated d: 15 fault kinds (directive errors, non-zero exit and death by signal of a command, unreadable/invalid includes and sources, occupied or unwritable output and temp paths, in-process write limits, verify mismatches) x 4 positions of the faulty file x {build, needed, verify} x input selections, each explored under all completion orders: the run must return Err in every schedule (never Ok, hang or panic); the fault-free baseline must return Ok with correct outputs in every schedule. RLIMIT_FSIZE = n for every n from 0 to the largest generated file + 1 on the production binary: exit 0 iff nothing hit the limit, and then all outputs are complete."),
  "C11": dict(engine="E-tree", technique="exhaustive enumeration of directory trees x input lists x options, each executed on the real Txtpp::run (processed sources observed through the hook trace) and compared with a reference set-of-sources function",
    ref="4.7, 5/C11", note="Trusted: the reference function expected_set (harness/src/etree.rs), written from the property statement; canonical schedule.",
    text="8 (quick) / 512 (thorough) trees over 3 directory levels x subsets of the three source-name shapes, with look-alike names in every directory, dotted-stem names and an include variant; input lists of length <=1/2 over 15 spellings (directories, either name, ./ and ../, absolute, missing, look-alikes) x recursive x build/needed/verify/clean x absolute/relative base: the processed set (hook trace), the created / removed / verified outputs and their names must be exactly what the statement prescribes; a target without source must fail."),
